@@ -709,6 +709,11 @@ def generated_obligations(ctx):
 
     g = importlib.import_module("astguards_c04")
     res = g.run(P.REPO)
+    # dynamic check of the `api_disciplined` hypothesis on the real per-type parsers
+    n, viol = P.check_api_discipline(limit=ctx.n(20000, None))
+    res.append({"name": "rdtypes-api-dynamic", "ok": not viol,
+                "detail": (f"{n} per-type parses left the Parser inside the message, end restored, furthest monotone" if not viol
+                           else "a per-type parser breaks the Parser discipline: " + repr(viol[:2]))})
     bad = [r for r in res if not r["ok"]]
     ctx.notes["ast_guards"] = [{"guard": r["name"], "ok": r["ok"], "detail": r["detail"][:200]} for r in res]
     return {
